@@ -67,6 +67,7 @@ class _Env(object):
         return 2
     self.Base, self.Sub = Base, Sub
     self.constructed = []
+    self.fail_ctor = False
 
     class TriggerPlug(base_plugs.BasePlug):
       # needed by the start trigger of SOME runs only; no phase of any test declares it
@@ -76,6 +77,8 @@ class _Env(object):
     class Counted(Sub):
       def __init__(self_):
         env.constructed.append('Sub')
+        if env.fail_ctor:
+          raise RuntimeError('fixture missing in this run')
     self.Sub = Sub = Counted
     self.TriggerPlug = TriggerPlug
 
@@ -343,7 +346,9 @@ def _run_s(case):
           before_opts = json.dumps(_snap(t._test_options), sort_keys=True, default=str)
           # station-wide settings vary from run to run; they must not stick to the Test
           sof = (step[1] + 2 * k) % 4 == 1
-          env.conf.load(stop_on_first_failure=sof, _override=True)
+          allow = (step[1] + k) % 5 in (1, 2)
+          env.fail_ctor = (step[1] * 7 + k) % 6 == 0 and k < step[2] - 1      # never the last run of the series
+          env.conf.load(stop_on_first_failure=sof, allow_unset_measurements=allow, _override=True)
           # some runs are started by a trigger phase that needs a plug of its own
           with_trigger = (step[1] + k) % 3 == 0
           if with_trigger:
@@ -351,6 +356,8 @@ def _run_s(case):
           else:
             t.execute()
           env.conf._loaded_values.pop('stop_on_first_failure', None)
+          env.conf._loaded_values.pop('allow_unset_measurements', None)
+          failed_ctor, env.fail_ctor = env.fail_ctor, False
           if json.dumps(_snap(t._test_options), sort_keys=True, default=str) != before_opts:
             facts.append('X:test-options-changed-by-a-run')
           if env.conf.c11_settings != {'token': ['secret']}:
@@ -364,13 +371,20 @@ def _run_s(case):
             facts.append('X:no-record')
             break
           c = json.dumps(_canon_record(recs[0]), sort_keys=True, default=str)
-          first = firsts.get((with_trigger, sof))
+          key = (with_trigger, sof, allow, failed_ctor)
+          first = firsts.get(key)
           if first is None:
-            firsts[(with_trigger, sof)] = c
+            firsts[key] = c
           elif c != first:
             facts.append('X:repeated-run-gives-a-different-record')
-          if recs[0].outcome.name not in ('PASS', 'FAIL'):   # FAIL: a measurement added to a derived phase is never set
+          if recs[0].outcome.name not in (('ERROR',) if failed_ctor else ('PASS', 'FAIL')):
+            # (FAIL: a measurement added to a derived phase is never set; ERROR: this run's plug constructor raised)
             facts.append('X:run-outcome-%s' % recs[0].outcome.name)
+          if not allow:
+            for p in recs[0].phases:
+              if p.outcome is not None and p.outcome.name == 'PASS' and any(
+                  m.outcome.name == 'UNSET' for m in p.measurements.values()):
+                facts.append('X:unset-measurement-passes-although-this-run-does-not-allow-it')
     except Exception as e:  # pylint: disable=broad-except
       # by design: the same Subtest twice in one test, a duplicate measurement name after 'measures' on a phase that
       # already has it; the snapshot check below still applies to whatever the failed operation did
